@@ -21,6 +21,7 @@ type pval struct {
 	isBool bool
 	b      bool
 	i      int64
+	tbl    *ssa.Global // the address of an effectively constant package-level array (a table handed to a helper)
 }
 
 const pureStepBound = 4000
@@ -49,6 +50,9 @@ func evalPure(fn *ssa.Function, args []pval, depth int) (pval, bool) {
 				return pval{i: n}, ok
 			}
 			return pval{}, false
+		}
+		if g, ok := v.(*ssa.Global); ok {
+			return pval{tbl: g}, true
 		}
 		r, ok := env[v]
 		return r, ok
@@ -94,6 +98,12 @@ func evalPure(fn *ssa.Function, args []pval, depth int) (pval, bool) {
 			case *ssa.IndexAddr:
 				// &table[i] for an effectively constant package-level array (Prog.ConstTable): remember the element
 				g, isG := x.X.(*ssa.Global)
+				if !isG {
+					// the table was handed in as a pointer parameter
+					if tv, ok := get(x.X); ok && tv.tbl != nil {
+						g, isG = tv.tbl, true
+					}
+				}
 				if !isG || foldProg == nil {
 					return pval{}, false
 				}
